@@ -47,12 +47,16 @@ impl PieceMoves {
 
     /// Check if it contains a given [`Move`].
     pub fn has(&self, mv: Move) -> bool {
-        let has_promotion = mv.promotion.is_some();
         let is_promotion = self.piece == Piece::Pawn &&
             matches!(mv.to.rank(), Rank::First | Rank::Eighth);
+        let promotion_matches = match mv.promotion {
+            None => !is_promotion,
+            Some(Piece::Knight | Piece::Bishop | Piece::Rook | Piece::Queen) => is_promotion,
+            Some(Piece::Pawn | Piece::King) => false
+        };
         self.from == mv.from
             && self.to.has(mv.to)
-            && (has_promotion == is_promotion)
+            && promotion_matches
     }
 }
 
